@@ -185,6 +185,103 @@ type B struct {
 // swagger:model
 type C struct{ V string }
 
+// Wide has many required, read-only and constrained fields: every list the scanner assembles from them must come out in one order
+// swagger:model
+type Wide struct {
+	// required: true
+	F01 string ` + "`json:\"f01\"`" + `
+	// required: true
+	// enum: red,green,blue,black
+	F02 string ` + "`json:\"f02\"`" + `
+	// required: true
+	F03 int32 ` + "`json:\"f03\"`" + `
+	// required: true
+	// read only: true
+	F04 int64 ` + "`json:\"f04\"`" + `
+	// required: true
+	F05 bool ` + "`json:\"f05\"`" + `
+	// required: true
+	F06 []string ` + "`json:\"f06\"`" + `
+	// required: true
+	F07 float64 ` + "`json:\"f07\"`" + `
+	// required: true
+	F08 *C ` + "`json:\"f08\"`" + `
+	// required: true
+	F09 map[string]int ` + "`json:\"f09\"`" + `
+	// required: true
+	F10 string ` + "`json:\"f10\"`" + `
+	// required: true
+	F11 string ` + "`json:\"f11\"`" + `
+	// required: true
+	F12 string ` + "`json:\"f12\"`" + `
+	Embedded
+}
+
+// Embedded brings required fields of its own
+type Embedded struct {
+	// required: true
+	E1 string ` + "`json:\"e1\"`" + `
+	// required: true
+	E2 string ` + "`json:\"e2\"`" + `
+	// required: true
+	E3 string ` + "`json:\"e3\"`" + `
+}
+
+// WideIface is an interface model with required methods
+// swagger:model
+type WideIface interface {
+	// required: true
+	Alpha() string
+	// required: true
+	Beta() int64
+	// required: true
+	Gamma() bool
+	// required: true
+	Delta() string
+	// required: true
+	Epsilon() string
+}
+
+// swagger:parameters wideOp
+type WideParams struct {
+	// in: query
+	// required: true
+	// enum: a,b,c,d
+	Q1 string ` + "`json:\"q1\"`" + `
+	// in: query
+	// required: true
+	Q2 []int64 ` + "`json:\"q2\"`" + `
+	// in: query
+	Q3 string ` + "`json:\"q3\"`" + `
+	// in: header
+	H1 string ` + "`json:\"X-H1\"`" + `
+	// in: header
+	H2 string ` + "`json:\"X-H2\"`" + `
+	// in: body
+	Body Wide
+}
+
+// swagger:route POST /wide things stuff more-stuff wideOp
+//
+// Consumes:
+// - application/json
+// - application/xml
+// - text/plain
+//
+// Produces:
+// - application/json
+// - text/csv
+//
+// Schemes: http, https, ws, wss
+//
+// responses:
+//   200: aResp
+//   201: aResp
+//   400: aResp
+//   404: aResp
+//   409: aResp
+//   default: aResp
+
 // swagger:parameters listA getA
 type ListParams struct {
 	// in: query
